@@ -3,6 +3,7 @@
    ALL histories of evaluations (lists of inputs, each input a list of statements). *)
 From Coq Require Import List ZArith Bool.
 From Verif Require Import C14.Model C14.Proof C14.Proof2.
+From Verif Require C14.CallCache.
 Import ListNotations.
 Open Scope Z_scope.
 
@@ -137,3 +138,19 @@ Example C14_ex_redefinition :
   lookupCI (scomp (runHistory fixed state0 redef_witness)) 1 = (0, 1) /\
   snd (evalInput fixed (runHistory fixed state0 redef_same) [SRead (EDeref (EV 2))]) = Some (VZ 5).
 Proof. vm_compute. auto. Qed.
+
+(* gap pass (tester report, fix C14-5), hand model coq/C14/CallCache.v of the call-site callee cache of fast/call*ret*.go:
+   on the code after C14-5 every call site executes the CURRENT callee for every history of assignments (variables of
+   function type: uncached variant) and re-declarations (declared functions: variant caching on the identity of the
+   xr.Value in FileEnv.Vals[index]; an assignment to a declared function is rejected at compile time) *)
+Theorem C14_call_site_sees_current_callee :
+  forall (isvar : bool) f evs, (isvar = false -> CallCache.no_assign evs) ->
+  CallCache.run_fixed isvar (CallCache.init f) evs = CallCache.spec f evs.
+Proof. exact CallCache.call_site_sees_current_callee. Qed.
+Print Assumptions C14_call_site_sees_current_callee.
+
+(* ... and the cached variant, used for variables too before C14-5, calls a stale function: call . f = lit . call *)
+Theorem C14_cell_keyed_cache_refuted_for_variables :
+  exists f evs, CallCache.run CallCache.call_cached (CallCache.init f) evs <> CallCache.spec f evs.
+Proof. exact CallCache.cell_keyed_cache_refuted_for_variables. Qed.
+Print Assumptions C14_cell_keyed_cache_refuted_for_variables.
